@@ -10,3 +10,5 @@ open Rtsp.Peer.C19
 #print axioms client_strict_history
 #print axioms client_foreign_ip_history
 #print axioms anyport_latches_first
+#print axioms other_ip_rejected_unchanged
+#print axioms other_conn_rejected_unchanged
